@@ -322,7 +322,7 @@ class Executor(object):
 
     def store_attr(self, st, obj, attr, v):
         if attr in ("temp", "perm"):
-            if isinstance(v, _EmptyDict) and attr == "temp":
+            if (isinstance(v, _EmptyDict) or getattr(v, "desc", None) == "{}") and attr == "temp":
                 m = st.heap.ensure("temp#has")
                 st.heap.maps["temp#has"] = m.store(obj.term, z3.K(dsl.Str, z3.BoolVal(False)))
                 return
@@ -339,7 +339,7 @@ class Executor(object):
             return
         if t == "hist" or t == "list" or t == "dict" or t == "opthist":
             self._undecided("store of %s attribute %s" % (t, attr))
-        if v is NONEV:
+        if v is NONEV and t not in ("optfloat", "optdict"):
             self._undecided("store of None into %s" % attr)
         hook = getattr(self, "on_store", None)
         if hook:
@@ -523,12 +523,20 @@ class Executor(object):
             for (s, b) in self.eval_cond(e.operand, st):
                 out.append((s, b if isinstance(b, _Raised) else (not b)))
             return out
+        # narrowing: `name is None` / `name is not None` on an optional local unwraps it on the not-None side
+        narrow = None
+        if isinstance(e, ast.Compare) and len(e.ops) == 1 and isinstance(e.ops[0], (ast.Is, ast.IsNot)) and isinstance(e.left, ast.Name) \
+                and isinstance(e.comparators[0], ast.Constant) and e.comparators[0].value is None and isinstance(st.locals.get(e.left.id), Opt):
+            narrow = (e.left.id, isinstance(e.ops[0], ast.IsNot))
         for (s, v) in self.eval(e, st):
             if isinstance(v, _Raised):
                 out.append((s, v))
                 continue
             t = self.truth(s, v)
-            out.extend(self.branch(s, t))
+            for (s1, b) in self.branch(s, t):
+                if narrow is not None and b == narrow[1] and isinstance(s1.locals.get(narrow[0]), Opt):
+                    s1.locals[narrow[0]] = s1.locals[narrow[0]].val
+                out.append((s1, b))
         return out
 
     def _cond_boolop(self, e, st):
@@ -792,7 +800,10 @@ class Executor(object):
             r = self._is(a, b, st)
             return r if isinstance(op, ast.Eq) else Not(r)
         if isinstance(a, Opt) or isinstance(b, Opt):
-            # date/None comparisons: `now == self._last_chk` style
+            # optional number against a number: None == x is False, None != x is True
+            if isinstance(op, (ast.Eq, ast.NotEq)) and isinstance(a, Opt) and isinstance(a.val, Num) and not isinstance(b, Opt):
+                e_ = And(Not(a.isnone), a.val.eq(self._num(st, b)))
+                return e_ if isinstance(op, ast.Eq) else Not(e_)
             self._undecided("comparison with optional")
         a, b = self._num(st, a), self._num(st, b)
         if isinstance(op, ast.Eq):
@@ -1388,6 +1399,9 @@ class Executor(object):
 
     def expr_Dict(self, e, st):
         if not e.keys:
+            h = getattr(self, "ext_dict_literal", None)
+            if h and not getattr(self, "empty_dict_is_temp_reset", False):
+                return h(e, st)
             return [(st, _EmptyDict())]
         h = getattr(self, "ext_dict", None)
         if h:
